@@ -295,8 +295,11 @@ class OrthoXMLParser(object):
                     raise
         elif tag == "{http://orthoXML.org/2011/}groups":
             if self.with_progress:
-                self.hog_pbar.close()
-                delattr(self, 'hog_pbar')
+                # no bar was opened when the file holds no orthologGroup with an id
+                for pbar in ('sp_pbar', 'hog_pbar'):
+                    if hasattr(self, pbar):
+                        getattr(self, pbar).close()
+                        delattr(self, pbar)
 
     def data(self, data):
         # Ignore data inside nodes
